@@ -39,7 +39,7 @@ var Registry = map[string]*Spec{}
 var runCounts = map[string][2]int{
 	"C01": {25000, 1000000}, "C02": {25000, 900000}, "C03": {40000, 1500000}, "C04": {50000, 2000000},
 	"C05": {80000, 3000000}, "C07": {20000, 800000}, "C08": {30000, 1200000}, "C09": {15000, 600000},
-	"C10": {25000, 900000}, "C11": {40000, 1500000}, "C12": {35000, 1400000}, "C13": {35000, 1400000},
+	"C10": {25000, 900000}, "C11": {40000, 1500000}, "C12": {35000, 1400000}, "C13": {20000, 800000},
 	"C16": {40000, 1500000}, "C17": {40000, 1500000}, "C18": {40000, 1400000}, "C19": {1200, 36000},
 	"C20": {c20Enum + 20000, c20Enum + 1000000},
 }
